@@ -189,6 +189,15 @@ int main(int argc, char** argv) {
                 v[3] = ((double) hx + 0.5 * (double) ax) / sf; v[4] = ((double) hy + 0.5 * (double) ay) / sf;
                 v[5] = ((double) hx + 0.5 * (double) bx) / sf; v[6] = ((double) hy + 0.5 * (double) by) / sf;
                 out.count("mode_half_lattice");
+            } else if (mode < 86) {
+                // ordinates within a few ulps of a pixel side after scaling with an inexact factor: p * sf and p / (1/sf) differ here,
+                // so the stream pins down that HotPixel scales by MULTIPLICATION
+                static const double sfi[] = {0.1, 0.01, 1.0 / 3.0, 0.3, 10.0, 1000.0, 0.007, 1e-5};
+                sf = sfi[r.below(8)]; if (r.chance(30)) sf = std::pow(10.0, (double) r.range(-6, 3) + r.unit()); v[0] = sf;
+                v[1] = (double) hx / sf; v[2] = (double) hy / sf;
+                for (int k = 3; k < 7; k++) { double c = ((double) (k % 2 ? hx : hy) + 0.5 * (double) r.range(-3, 3)) / sf;
+                    int j = r.range(-2, 2); for (int q = 0; q < std::abs(j); q++) c = std::nextafter(c, j > 0 ? 1e308 : -1e308); v[k] = c; }
+                out.count("mode_near_side_inexact_scale");
             } else if (mode < 90) {
                 // quarter lattice, pixel centre not on the integer lattice when sf == 1
                 v[1] = ((double) hx + (sf == 1.0 ? 0.25 * (double) r.range(0, 3) : 0.0)) / sf; v[2] = ((double) hy + (sf == 1.0 ? 0.25 * (double) r.range(0, 3) : 0.0)) / sf;
